@@ -82,6 +82,7 @@ func aggNoRetain(c *Ctx, rule string) {
 
 func runC10(c *Ctx, tier string) {
 	p := c.P
+	runJoinCacheUsesComparator(c, "C10-J3")
 	c.Rule("C10-W1", "aggregate state does not alias input: no agg.Function Consume/ConsumeAsPartial, nor groupby.Aggregator.Consume, retains its argument or anything derived from it without a copy")
 	c.Rule("C10-K1", "group identity includes the key types: the string that indexes the group table depends on both the flattened key bytes and keyTypes.Lookup(types)")
 	c.Rule("C10-W3", "zio.Reader ownership in join/spill/groupby/fuse: a value from Read/Peek is copied before it escapes or before the next Read on that reader")
